@@ -16,6 +16,7 @@ import (
 
 	"pgregory.net/rapid"
 
+	"dsim/gen"
 	"dsim/sched"
 )
 
@@ -252,7 +253,8 @@ func Explore[S any](t *testing.T, c Check[S]) {
 	if c.Batch == 0 {
 		c.Batch = 50
 	}
-	sched.StartWatchdog(120*time.Second, func() string { return c.Property })
+	sched.StartWatchdog(300*time.Second, func() string { return c.Property })
+	gen.Progress = func() { sched.Heartbeat.Add(1) }
 	st := &Stats{Property: c.Property, Worker: env.Worker, Seed: env.Seed,
 		Faults: map[string]int{}, Configured: map[string]int{}, Probes: map[string]int{}, Pairs: map[string]int{},
 		Populations: map[string]int{}, KnownHits: map[string]int{}, KnownReplay: map[string]string{}, Extra: map[string]int{}}
@@ -273,6 +275,11 @@ func Explore[S any](t *testing.T, c Check[S]) {
 	if oneBatch {
 		deadline = start.Add(time.Hour)
 	}
+	var dumpRuns *os.File
+	if os.Getenv("VERIF_DUMP_RUNS") != "" {
+		dumpRuns, _ = os.Create(filepath.Join(env.OutDir, fmt.Sprintf("runs-%d.txt", env.Worker)))
+		defer dumpRuns.Close()
+	}
 	var target string // violation kind being shrunk
 	for batch := 0; time.Now().Before(deadline) && st.Violation == nil && !(oneBatch && batch > 0); batch++ {
 		batchSeed := SplitMix(workerSeed+uint64(batch)) | 1
@@ -288,6 +295,10 @@ func Explore[S any](t *testing.T, c Check[S]) {
 			}
 			sc := c.Draw(rt, env.Tier)
 			res := c.Run(t, sc, failing)
+			if dumpRuns != nil && !failing {
+				raw, _ := json.Marshal(sc)
+				fmt.Fprintf(dumpRuns, "%d %s steps=%d %016x %s\n", st.Runs, res.TraceHash, res.Steps, hashString(string(raw)), raw)
+			}
 			if failing {
 				st.ShrinkRuns++
 			} else {
@@ -434,7 +445,7 @@ func DoReplay[S any](t *testing.T, c Check[S], env Env) {
 		fmt.Printf("REPLAY-ERROR bad scenario: %v\n", err)
 		t.FailNow()
 	}
-	sched.StartWatchdog(120*time.Second, func() string { return "replay " + c.Property })
+	sched.StartWatchdog(300*time.Second, func() string { return "replay " + c.Property })
 	res := c.Run(t, sc, true)
 	found := false
 	for _, v := range res.Violations {
